@@ -122,6 +122,8 @@ struct Variant {
     cap: Option<usize>,
     dbuf: Option<usize>,
     cfg: String,
+    /// heap limit = length of the UTF-8 transcoding + this many bytes (just sufficient); None = no limit
+    heap: Option<usize>,
 }
 
 fn parse_variants(v: &Value) -> Vec<Variant> {
@@ -139,12 +141,14 @@ fn parse_variants(v: &Value) -> Vec<Variant> {
             cap: x["cap"].as_u64().map(|n| n as usize),
             dbuf: x["dbuf"].as_u64().map(|n| n as usize),
             cfg: x["cfg"].as_str().unwrap_or("plain").to_string(),
+            heap: x["heap"].as_u64().map(|n| n as usize),
         })
         .collect()
 }
 
-fn build_searcher(label: &str, cfg: &str, mmap: bool, cap: Option<usize>, dbuf: Option<usize>) -> Result<Searcher, String> {
+fn build_searcher(label: &str, cfg: &str, mmap: bool, cap: Option<usize>, dbuf: Option<usize>, heap: Option<usize>) -> Result<Searcher, String> {
     let mut b = SearcherBuilder::new();
+    b.heap_limit(heap);
     b.line_terminator(LineTerminator::byte(b'\n'))
         .line_number(true)
         .passthru(cfg == "pass")
@@ -185,18 +189,18 @@ struct Ctx {
     dir: PathBuf,
 }
 
-fn run_search(ctx: &mut Ctx, key: String, label: &str, v: &Variant, data: &[u8], cuts: &[usize], file: &PathBuf) -> Value {
+fn run_search(ctx: &mut Ctx, key: String, label: &str, v: &Variant, data: &[u8], cuts: &[usize], file: &PathBuf, declen: usize) -> Value {
     if ctx.cache.len() > 512 {
         ctx.cache.clear();
     }
     // A roll buffer that has grown stays grown: variants with a tiny capacity get a fresh searcher every
     // time; the others are reused across scenarios (searchers are meant to be reused, state leaking from
     // one search into the next would show).
-    if v.cap.is_some() {
+    if v.cap.is_some() || v.heap.is_some() {
         ctx.cache.remove(&key);
     }
     if !ctx.cache.contains_key(&key) {
-        match build_searcher(label, &v.cfg, v.strat == "mmap", v.cap, v.dbuf) {
+        match build_searcher(label, &v.cfg, v.strat == "mmap", v.cap, v.dbuf, v.heap.map(|extra| declen + extra)) {
             Ok(s) => {
                 ctx.cache.insert(key.clone(), s);
             }
@@ -290,7 +294,7 @@ fn run_one(ctx: &mut Ctx, v: &Value) -> Value {
                     wrote = true;
                 }
                 let key = format!("{}|{}", var.name, label);
-                let obs = run_search(ctx, key, &label, var, &bytes, &cuts, &file);
+                let obs = run_search(ctx, key, &label, var, &bytes, &cuts, &file, dec.len());
                 let s = obs.to_string();
                 match groups.iter_mut().find(|g| g.0 == s) {
                     Some(g) => g.2.push(var.name.clone()),
@@ -303,8 +307,8 @@ fn run_one(ctx: &mut Ctx, v: &Value) -> Value {
                 if !variants.iter().any(|x| x.cfg == cfg) {
                     continue;
                 }
-                let bv = Variant { name: format!("base-{cfg}"), strat: "slice".into(), chunk: 2, cap: None, dbuf: None, cfg: cfg.into() };
-                let obs = run_search(ctx, format!("base|{cfg}"), "raw", &bv, &dec, &[], &decfile);
+                let bv = Variant { name: format!("base-{cfg}"), strat: "slice".into(), chunk: 2, cap: None, dbuf: None, cfg: cfg.into(), heap: None };
+                let obs = run_search(ctx, format!("base|{cfg}"), "raw", &bv, &dec, &[], &decfile, dec.len());
                 base.insert(cfg.to_string(), obs);
             }
             // mechanism naming only: the same search on the transcoding minus its last 1..3 bytes
@@ -319,8 +323,8 @@ fn run_one(ctx: &mut Ctx, v: &Value) -> Value {
                         if j > dec.len() {
                             break;
                         }
-                        let bv = Variant { name: format!("base-{cfg}"), strat: "slice".into(), chunk: 2, cap: None, dbuf: None, cfg: cfg.into() };
-                        per.push(run_search(ctx, format!("base|{cfg}"), "raw", &bv, &dec[..dec.len() - j], &[], &decfile));
+                        let bv = Variant { name: format!("base-{cfg}"), strat: "slice".into(), chunk: 2, cap: None, dbuf: None, cfg: cfg.into(), heap: None };
+                        per.push(run_search(ctx, format!("base|{cfg}"), "raw", &bv, &dec[..dec.len() - j], &[], &decfile, dec.len()));
                     }
                     cut.insert(cfg.to_string(), Value::Array(per));
                 }
